@@ -630,7 +630,7 @@ def run_scenario(ctx, lb, sc, idx):
         shutil.rmtree(world.top, ignore_errors=True)
 
 
-N_SCEN = {"quick": {"good": (10, 3), "bad": (6, 3)}, "thorough": {"good": (16, 12), "bad": (8, 12)}}
+N_SCEN = {"quick": {"good": (10, 2), "bad": (6, 2)}, "thorough": {"good": (16, 12), "bad": (8, 12)}}  # (tasks, scenarios per task)
 
 
 def plan(tier, seed):
